@@ -69,6 +69,14 @@ func (c c16Case) build(s *store.Store, ls *ipld.LinkSystem) (ipld.Link, uint64, 
 		return l, sz, err
 	case "symlink":
 		return builder.BuildUnixFSSymlink("../some/target", ls)
+	case "auto-large":
+		// a directory whose size estimate is just above the auto-shard threshold,
+		// through the plain-directory entry point (which then shards it)
+		links, err := gen.PBLinks(gen.Leaves(s, thresholdNames(262145)))
+		if err != nil {
+			return nil, 0, err
+		}
+		return builder.BuildUnixFSDirectory(links, ls)
 	case "plain", "sharded":
 		links, err := gen.PBLinks(gen.Leaves(s, c.Names))
 		if err != nil {
@@ -178,7 +186,7 @@ func (c c16Case) body(x *xplore.Ctx, viol func(sig, detail string)) string {
 			err = fmt.Errorf("panic")
 		}
 	}
-	if c.Kind == "sharded" || c.Kind == "quick" || c.Kind == "plain" {
+	if c.Kind == "sharded" || c.Kind == "quick" || c.Kind == "plain" || (c.Kind == "auto-large" && false) {
 		withMapOrder(x, nil, run)
 	} else {
 		run()
@@ -255,12 +263,16 @@ func runC16(r *core.Run) {
 			cases = append(cases, c16Case{Kind: "plain", Names: gen.SubsetOf(u, m)})
 		}
 	}
-	cases = append(cases, c16Case{Kind: "sharded", Fanout: 256, Names: u}, c16Case{Kind: "recursive"}, c16Case{Kind: "quick"})
+	cases = append(cases, c16Case{Kind: "sharded", Fanout: 256, Names: u}, c16Case{Kind: "recursive"}, c16Case{Kind: "quick"}, c16Case{Kind: "auto-large"})
 	var execs int64
 	maxDepth := 0
 	for i, c := range cases {
 		c := c
-		ex := &xplore.Explorer{Bound: 2, Horizon: 3000, Replay: 2, MaxExecs: 300000, OnDiverge: func(ch []int, a, b string) {
+		bound, horizon := 2, 3000
+		if c.Kind == "auto-large" {
+			bound, horizon = 1, 20000 // hundreds of shard blocks: every single failure position
+		}
+		ex := &xplore.Explorer{Bound: bound, Horizon: horizon, Replay: 2, MaxExecs: 300000, OnDiverge: func(ch []int, a, b string) {
 			r.InternalError(fmt.Sprintf("nondeterministic replay %s %v: %q vs %q", c, ch, a, b))
 		}}
 		outcomes := map[string]bool{}
@@ -294,4 +306,5 @@ func runC16(r *core.Run) {
 	r.Set("max_choice_depth", maxDepth)
 	r.Set("builds", len(cases))
 	r.Set("deviation_bound_completed", 2)
+	r.Set("deviation_bound_completed_auto_large", 1)
 }
